@@ -274,7 +274,7 @@ class TypeTable:
     """struct field types and enum variant lists, scraped from /repo/src/*.rs (needed to build symbolic values of
     a declared type and to number enum variants -- MIR text does not carry declarations)."""
     def __init__(self, srcdir):
-        self.structs = {}; self.enums = {
+        self.structs = {}; self.struct_cfg = {}; self.enums = {
             'Option': [('None', []), ('Some', ['T'])], 'Result': [('Ok', ['T']), ('Err', ['E'])],
             'ControlFlow': [('Continue', ['C']), ('Break', ['B'])]}
         for path in sorted(glob.glob(os.path.join(srcdir, '*.rs'))):
@@ -294,12 +294,32 @@ class TypeTable:
             for m in re.finditer(r'\bstruct\s+(\w+)\s*(?:<[^>]*>)?\s*\{', src):
                 body = src[m.end():match_close(src, m.end() - 1)]
                 fs = []
+                cf = []
                 for v in split_top(body):
+                    cfgs = re.findall(r'#\[cfg\((.*?)\)\]\s*(?=#|pub|\w)', v, re.S)
                     v = re.sub(r'#\[[^\]]*\]', '', v).strip()
                     if not v: continue
                     fm = re.match(r'(?:pub(?:\([^)]*\))?\s+)?(\w+)\s*:\s*(.+)$', v, re.S)
-                    if fm: fs.append((fm.group(1), fm.group(2).strip()))
-                self.structs[m.group(1)] = fs
+                    if fm: fs.append((fm.group(1), fm.group(2).strip())); cf.append((fm.group(1), cfgs))
+                self.structs[m.group(1)] = fs; self.struct_cfg[m.group(1)] = cf
+    @staticmethod
+    def cfg_eval(expr, features):
+        """value of a cfg predicate for a feature set (target: linux, not windows)"""
+        e = expr.strip()
+        m = re.fullmatch(r'(not|all|any)\((.*)\)', e, re.S)
+        if m:
+            parts = [TypeTable.cfg_eval(x, features) for x in split_top(m.group(2)) if x.strip()]
+            return (not parts[0]) if m.group(1) == 'not' else (all(parts) if m.group(1) == 'all' else any(parts))
+        m = re.fullmatch(r'feature\s*=\s*"([^"]+)"', e)
+        if m: return m.group(1) in features
+        if e in ('windows', 'test', 'rbpf_verif', 'kani'): return False
+        if e in ('unix',) or e.startswith('target_'): return True
+        raise Unsupported('cfg predicate ' + e)
+    def field_names(self, struct, features):
+        """declaration-order field names of a struct under a feature set (MIR numbers fields after cfg stripping)"""
+        st = struct.split('::')[-1].split('<')[0]
+        if st not in self.struct_cfg: return None
+        return [n for n, cfgs in self.struct_cfg[st] if all(self.cfg_eval(c, features) for c in cfgs)]
     def variant_index(self, name, enum_hint=None):
         if enum_hint:
             e = enum_hint.split('::')[-1].split('<')[0]
@@ -508,10 +528,17 @@ class Engine:
             self.ctx.setdefault('enum_ranges', []).append(ULT(d, len(vs)))
             return Enum(d, pl, base)
         raise Unsupported('fresh_of_type ' + ty)
+    def lazy_field(self, obj, idx):
+        """symbol-name component for field idx of a lazily materialised struct: the index, or (ctx['lazy_field_names'] = feature set) the declared field name, which is stable across feature sets"""
+        feats = self.ctx.get('lazy_field_names')
+        if feats is not None and obj.ty:
+            names = self.types.field_names(re.sub(r"^&('\w+\s+)?(mut\s+)?", '', obj.ty.strip()), feats)
+            if names and idx < len(names): return names[idx]
+        return idx
     def fresh_lazy(self, ty, name):
         """symbolic value of a type named in MIR text (used for lazily materialised struct fields)"""
         ty = ty.strip()
-        ty = re.sub(r"^&'?\w*\s*(mut )?", '', ty) if ty.startswith('&') and not ty.startswith(('&[', '&mut [', "&'a [", "&'a mut [")) else ty
+        ty = re.sub(r"^&('\w+\s+)?(mut\s+)?", '', ty) if ty.startswith('&') and not ty.startswith(('&[', '&mut [', "&'a [", "&'a mut [")) else ty
         if ty in INT_TYPES: return V(BitVec(name, INT_TYPES[ty][0]), ty)
         if ty == 'bool': return V(Bool(name), 'bool')
         m = re.fullmatch(r"(?:&(?:'\w+ )?(?:mut )?)\[(\w+)\]", ty)
@@ -617,7 +644,7 @@ class Engine:
                     if p[1] >= len(v.f): raise Unsupported(f'field {p[1]} of {v}')
                     v = v.f[p[1]]
                 elif isinstance(v, LazyObj):
-                    if p[1] not in v.fields: v.fields[p[1]] = self.fresh_lazy(p[2], f'{v.name}.{p[1]}')
+                    if p[1] not in v.fields: v.fields[p[1]] = self.fresh_lazy(p[2], f'{v.name}.{self.lazy_field(v, p[1])}')
                     v.ftys[p[1]] = p[2]
                     v = v.fields[p[1]]
                 elif isinstance(v, Opaque): v = Opaque('field', (v, p[1]))
@@ -658,7 +685,7 @@ class Engine:
                     while len(f) <= p[1]: f.append(None)
                     f[p[1]] = upd(f[p[1]], proj[1:]); return Agg(f, v.ty, v.kind)
                 if isinstance(v, LazyObj):
-                    if p[1] not in v.fields and len(proj) > 1: v.fields[p[1]] = self.fresh_lazy(p[2], f'{v.name}.{p[1]}')
+                    if p[1] not in v.fields and len(proj) > 1: v.fields[p[1]] = self.fresh_lazy(p[2], f'{v.name}.{self.lazy_field(v, p[1])}')
                     nf = dict(v.fields); nf[p[1]] = upd(nf.get(p[1]), proj[1:]); nt = dict(v.ftys); nt[p[1]] = p[2]; return LazyObj(v.name, v.ty, nf, nt)
                 if v is None:
                     f = [None] * (p[1] + 1); f[p[1]] = upd(None, proj[1:]); return Agg(f)
@@ -1078,6 +1105,16 @@ class Engine:
                 if r is not NotImplemented: return r
         r = intrinsic(self, st, fr, callee, base, args, R)
         if r is not NotImplemented: return r
+        # a no_std build prints library paths as core:: / alloc:: where the default build prints std:: (same items, re-exported): retry under the std spelling
+        callee2 = re.sub(r'\b(core|alloc)::', 'std::', callee)
+        if callee2 != callee:
+            base2 = strip_generics(callee2)
+            for pat, h in self.stubs:
+                if pat.search(base2):
+                    r = h(self, st, fr, callee2, args, R)
+                    if r is not NotImplemented: return r
+            r = intrinsic(self, st, fr, callee2, base2, args, R)
+            if r is not NotImplemented: return r
         # indirect call through a closure value / fn item
         if re.fullmatch(r'(copy|move) _\d+', callee.strip()):
             f = self.deref(st, self.operand(st, fr, callee.strip()))
